@@ -27,7 +27,7 @@ from props.common import TRUSTED_BASE, ASSUMPTIONS
 
 ID = "C13"
 FORMAT_GROUP = "sep"
-LEAN_MODULES = ["LexVerif.Props.C13", "LexVerif.Props.Literals.ParseFloatParse", "LexVerif.Props.Literals.ParseFloatShared", "LexVerif.Props.Literals.ParseIntegerAlgorithm", "LexVerif.Props.Literals.UtilSkip", "LexVerif.Props.Literals.UtilNoskip", "LexVerif.Props.Literals.UtilIterator", "LexVerif.Props.Literals.UtilDigit", "LexVerif.Props.Literals.ParseFloatApi", "LexVerif.Props.Literals.ParseIntegerApi", "LexVerif.Props.Literals.ParseFloatSlow", "LexVerif.Props.Literals.ParseFloatBinary"]
+LEAN_MODULES = ["LexVerif.Props.C13", "LexVerif.Props.C13Gen", "LexVerif.Props.Literals.ParseFloatParse", "LexVerif.Props.Literals.ParseFloatShared", "LexVerif.Props.Literals.ParseIntegerAlgorithm", "LexVerif.Props.Literals.UtilSkip", "LexVerif.Props.Literals.UtilNoskip", "LexVerif.Props.Literals.UtilIterator", "LexVerif.Props.Literals.UtilDigit", "LexVerif.Props.Literals.ParseFloatApi", "LexVerif.Props.Literals.ParseIntegerApi", "LexVerif.Props.Literals.ParseFloatSlow", "LexVerif.Props.Literals.ParseFloatBinary"]
 GEN = ["literals"]
 TRUSTED = TRUSTED_BASE + [
     "R1-R4 are judged on implementation results only (metamorphic; no oracle needed): props/C13.py `post`, with the "
@@ -52,15 +52,26 @@ LEVEL_TEXT = ("Proved in Lean on the model (Model.Iter + Model.ParseNumber, all 
               "and 8-digit fast path included) as its separator-free counterpart; the unrestricted statement sep_free_same_full is now PROVED "
               "(sep_free_same_full_holds; before /repo 7e8a135 + 12a2453 it was refuted for the integer-only / fraction-only / exponent-only / "
               "no-flag classes - those kernel-evaluated witnesses are now the regression theorems sep_free_regression_*); "
-              "(3) strip_preserves: for the class where "
-              "every component has I+L+T+C (no base prefix/suffix, STANDARD required digits) an input the complete parser accepts as a "
-              "number is accepted as the same number after deleting all separators (refuted in general by the I+T+C class witness); (4) "
-              "insert_preserves: for the same class, separators inserted anywhere except directly before a sign keep the input accepted "
-              "as the same number. R2 is not a theorem (witnesses for I+T+C and I+L+C only). The implementation is checked directly by the metamorphic "
+              "(3) strip_preserves (R1): Props/C13Gen.lean strip_preserves_all - for EVERY flag combination on every component (no flag, I, L, T, "
+              "I+L, I+T, L+T, I+L+T, each with or without C) except I+T+C on the integer or fraction component (no base prefix/suffix, STANDARD "
+              "required digits): an input the complete parser accepts as a number is accepted as the same number (same mantissa/exponent words, "
+              "same numberBits value) after deleting all separators; the I+T+C exclusion is necessary (strip_witness_itc, recorded defect); "
+              "proof: predicate-agnostic traces of the digit loops + a locality lemma (the skip predicates look at a small neighbourhood; what the "
+              "many-digit re-scan of a stored slice sees at the slice boundary never turns a skip into a non-skip, except for is_itc); "
+              "strip_preserves (Props/C13.lean) is the all-I+L+T+C instance; (4) insert_preserves (R3): insert_preserves_doc - same classes - "
+              "if the stripped input is accepted and every separator of s is at a position the documented rules enable (DocEnabled: between two "
+              "digits of its component needs I, before the first L, after the last T, next to another separator C; integer / fraction / exponent "
+              "part delimited by sign, decimal point, exponent character) and no separator run directly precedes a sign, then s is accepted as "
+              "the same number with the same value; insert_preserves_gen (semantic form: no digit iterator stops on a separator) and "
+              "insert_preserves_seps (separators only in I+L+T+C components, any flags elsewhere) are the intermediate forms; enabled_holds shows "
+              "for all 15 peek variants that an enabled run is skipped. "
+              "R2 is not a theorem (witnesses for I+T+C and I+L+C only). The implementation is checked directly by the metamorphic "
               "relations R1-R4 on exhaustive short and structured long inputs; on the unchanged tree this check reports violation classes.")
 LEVEL_NOTE = ("Trusted: Lean kernel; rustc; harness; the model is tied to the code by correspondence only. The relations are judged on "
-              "implementation results, bounded by the input generators described under `rule`. strip_preserves / insert_preserves stay "
-              "restricted to the all-I+L+T+C class: mixing skip-everything and no-flag components was not attempted (the I+T+C / I+L+C defects are open).")
+              "implementation results, bounded by the input generators described under `rule`. The Lean R1/R3 theorems exclude exactly I+T+C on the "
+              "integer / fraction component (recorded defects sep-itc-*); I+L+C needs no exclusion for R1/R3 (its defect is R2: it accepts MORE positions). "
+              "Class hypotheses (GenStrip): release build, no base prefix/suffix, no_float_leading_zeros off, exponent/mantissa digits required, separator is "
+              "no sign/decimal point/exponent character/digit; bytes < 256.")
 
 SEP = "_"
 
